@@ -34,8 +34,8 @@ def _compile_job(job):
     """job = (seed, index, label, tflite bytes, opts).  Runs in a forked worker."""
     import traceback
 
-    seed, idx, label, data, opts = job
-    out = {"idx": idx, "label": label, "opts": opts}
+    seed, idx, label, data, opts, tgt = job
+    out = {"idx": idx, "label": label, "opts": opts, "tgt": tgt}
     try:
         import c16_lib
         import pipeline
@@ -100,7 +100,9 @@ def _compile_job(job):
         finally:
             TFLiteSupportedOperators.is_operator_supported = o_sup
             TFLiteSemantic.is_operator_semantic_valid = o_sem
-        out.update(status=res.status, exc=(type(res.exc).__name__ + ": " + str(res.exc))[:200] if res.exc is not None else "",
+        import pipe_common
+
+        out.update(site=pipe_common.exc_site(res.tb, res.exc) if res.status == "internal-exception" else "", status=res.status, exc=(type(res.exc).__name__ + ": " + str(res.exc))[:200] if res.exc is not None else "",
                    tb=res.tb[-800:], out_model=res.out_model, stdout=res.stdout, seen=seen)
         pipeline.reset_process_state()
     except BaseException:  # noqa: B902
@@ -154,7 +156,7 @@ def main():
         for key in drift.split(" ")[1:]:
             ck.violation(f"committed SUPPORTED_OPS.md differs from the report this tree generates: {key}",
                          {"lean": "Spec.reportDrift committedReport freshReport", "entry": key,
-                          "replay": "vela --supported-ops-report; diff SUPPORTED_OPS.md <generated>"}, key=key)
+                          "replay": "vela --supported-ops-report; diff SUPPORTED_OPS.md <generated>"})
 
     # ---- (a) function level ------------------------------------------------------------------------------------------
     rc = c16_lib.RealCheckers()
@@ -230,24 +232,33 @@ def main():
         except Exception:  # noqa: B902
             ck.count("net_unserialisable")
             continue
-        accs = ACCS if ck.thorough else [ACCS[(idx + k * 3 + ck.seed) % 6] for k in range(2 if idx % 3 == 0 else 1)]
+        accs = ACCS if ck.thorough else [ACCS[(idx + k * 3 + ck.seed) % 6] for k in range(2 if idx % 7 == 0 else 1)]
         for acc in accs:
             opts = ["--accelerator-config", acc]
             if (idx + ck.seed) % 5 == 0:
                 opts.append("--show-cpu-operations")
-            jobs.append((ck.seed, idx, label, data, opts))
+            jobs.append((ck.seed, idx, label, data, opts, getattr(net, "tgt", None)))
     pipeline.load_vela()
     ctx = multiprocessing.get_context("fork")
     with ProcessPoolExecutor(min(16, os.cpu_count() or 4), mp_context=ctx) as ex:
         results = list(ex.map(_compile_job, jobs, chunksize=2))
     preqs, pmeta = [], []
-    c13_skipped = 0
+    c13_skipped, crashes = 0, []
+    c13_sites = [k["key"] for k in common.load_known_findings() if k["property"] == "C13"]
     for r in results:
         if "harness_exception" in r:
             raise common.InfraError("pipeline worker failed:\n" + r["harness_exception"])
         ck.count("compile_" + r["status"])
         if r["status"] == "internal-exception":
-            c13_skipped += 1            # C13's subject (recorded there), not placement
+            # A crash at a site recorded under C13 is C13's subject: skipped and counted.  A crash anywhere else means the
+            # compiler died on a network whose operators had all been placed (every generated network is valid input):
+            # the operators that should "stay on the CPU unchanged" are in no output file at all.
+            site = r.get("site", "")
+            if any(k == site or k.startswith(site + ":") for k in c13_sites):
+                c13_skipped += 1
+                ck.count("skipped_" + site)
+            else:
+                crashes.append(r)
             continue
         if r["status"] != "ok" or r.get("out_model") is None:
             continue
@@ -332,7 +343,7 @@ def main():
         s = r["src"][k]
         parts = docc.split(" ")
         ext = parts[-1][4:]
-        key = f"doc-drift:1:{ext}:" if parts[0] == "silent" else (f"doc-drift:4:{ext}:{parts[2]}" if parts[0] == "cpu" else None)
+        key = f"doc-drift:1:{ext}:" if parts[0] == "silent" else (f"doc-drift:4:{ext}:{parts[2]}" if parts[0] == "cpu" else "doc-drift:npu")
         ck.count("committed_doc_contradicted")
         seen_keys[key] += 1
         if seen_keys[key] > 2:
@@ -340,7 +351,7 @@ def main():
         ck.violation(f"{s['type']} in '{r['label']}' ({r['opts'][1]}): the committed SUPPORTED_OPS.md says {' '.join(parts[:3])}, observed placement {obs} "
                      "(the freshly generated report agrees with the observation)",
                      {"label": r["label"], "opts": r["opts"], "seed": ck.seed, "index": r["idx"], "operator": s["type"], "committed_document": docc,
-                      "observed": obs, "descriptor": s["desc"][:3000]}, found_input=True, key=key)
+                      "observed": obs, "descriptor": s["desc"][:3000], "entry": key}, found_input=True)
     # "... stays on the CPU UNCHANGED": every CPU-resident operator of the output file vs the source operator it came from
     same_reqs, same_meta = [], []
     for r in results:
@@ -369,6 +380,26 @@ def main():
                      f"source {so['canon'][:160]} / output {oo['canon'][:160]}",
                      {"label": r["label"], "opts": r["opts"], "seed": ck.seed, "index": r["idx"], "source": so["canon"], "output": oo["canon"], "differs": what},
                      found_input=True, key=key)
+    rep_sites = collections.Counter()
+    creqs = [f"c16 doc {s_['desc']}" for r in crashes for s_ in r.get("src", [])]
+    couts = iter(ck.model(creqs))
+    for r in crashes:
+        docs = [next(couts).split(" ")[0] for _ in r.get("src", [])]
+        # the same site with and without an operator the report keeps off the NPU are different findings: a rewrite
+        # reaching an operator that was placed on the CPU is exactly what "stays on the CPU unchanged" forbids
+        tdoc = [(d, s_["type"]) for d, s_ in zip(docs, r.get("src", [])) if r.get("tgt") is not None and s_["op_index"] == r["tgt"]]
+        if tdoc:
+            site = r.get("site", "?") + ":" + tdoc[0][1] + "-" + ("cpu" if tdoc[0][0] in ("cpu", "silent") else tdoc[0][0])
+        else:
+            site = r.get("site", "?") + (":some-cpu" if any(d in ("cpu", "silent") for d in docs) else ":all-npu")
+        r["docs"] = docs
+        rep_sites[site] += 1
+        if rep_sites[site] > 2:
+            continue
+        ck.violation(f"compilation of '{r['label']}' ({r['opts'][1]}) died with {r.get('exc', '')[:120]} at {site} (not a crash recorded under C13): "
+                     "no operator of this network stays on the CPU unchanged",
+                     {"label": r["label"], "opts": r["opts"], "seed": ck.seed, "index": r["idx"], "exception": r.get("exc"), "site": site,
+                      "traceback_tail": r.get("tb"), "source_ops": [s_["type"] for s_ in r.get("src", [])], "documented": r.get("docs")}, found_input=True, key="crash:" + site)
     # console summary vs output file
     for r in results:
         if r.get("status") != "ok" or "cpu_ops" not in r:
@@ -417,7 +448,7 @@ def main():
                 "least one source operator's placement was judged",
         "stub_operators": len(meta), "stub_families": dict(fams),
         "function_level_disagreements": len(fn_dis), "function_level_unmodelled": fn_unmodelled, "spec_rejections_function_level": len(spec_rej),
-        "compilations": len(results), "compilations_skipped_c13": c13_skipped, "source_ops_judged": len(judge2_meta),
+        "compilations": len(results), "compilations_skipped_c13": c13_skipped, "compilations_crashed_elsewhere": len(crashes), "source_ops_judged": len(judge2_meta),
         "placement_disagreements": len(placement), "placement_known": known_place,
         "cpu_ops_compared_with_source": len(same_reqs), "cpu_ops_changed": len(changed),
         "operators_seen_by_checkers_in_situ": seen_ops, "in_situ_disagreements": len(insitu_dis),
@@ -461,7 +492,7 @@ def replay(ck, path):
     elif "index" in body:
         nets = c16_nets.cases(random.Random(seed * 7919 + 16), rp.get("tier") == "thorough")
         label, net = nets[int(body["index"])]
-        r = _compile_job((seed, int(body["index"]), label, netgen.serialize(net), body["opts"]))
+        r = _compile_job((seed, int(body["index"]), label, netgen.serialize(net), body["opts"], getattr(net, "tgt", None)))
         print(f"network '{label}' {body['opts']}: {r.get('status')} {r.get('exc', '')}")
         if r.get("status") == "ok" and r.get("out_model") is not None:
             cpu_ops, n_npu = observed_cpu_ops(fbwalk.parse(r["out_model"]))
